@@ -96,6 +96,7 @@ func main() {
 		props.OtherTarget(r)
 		props.ThirdTarget(r)
 	props.OtherMachines(r)
+	props.ManyColdStarts(r)
 		props.ConfigChildren(r)
 		props.ErrorsFirstChild(r)
 		return r.Finish()
